@@ -280,7 +280,7 @@ def rule_exact(E, R):
         clo = closure_of(tw[0]["args"][2])
         if clo:
             cs = [norm(c.get("callee", "")) for c in exprs(clo["body"], ("Call", "MethodCall"))]
-            lits = [x["lit"].get("v") for x in exprs(clo["body"], "Lit")]
+            lits = [lit_value(x) for x in exprs(clo["body"], ("Lit", "Path")) if lit_value(x) is not None]
             pred_ok = cs == ["core::char::methods::{impl char}::is_ascii_alphanumeric"] and lits == ["_"] and binops(clo["body"]).count("Or") == 1
     R.check(pred_ok, rule, fi, "an identifier segment is [A-Za-z0-9_]+", where=hi["span"])
     dots = [x for x in sites if x.node.get("k") == "Call" and norm(x.node.get("callee", "")) == "lex::expect" and lit_value(x.node["args"][1]) == "."]
